@@ -5,8 +5,8 @@
     The data layer is abstract (Tm/Spec.v, Tm/Data.v): a committed transaction installs, at its
     commit epoch, a new version of every entity in its write set; a read returns the version
     current at the reader's start ([ver_at G e (h_start r)]) or the reader's own write. *)
-From GV Require Export Tm.Model Tm.Spec Tm.Data.
-From GV Require Import Tm.AL Tm.SpecProofs Tm.Refine Tm.Proofs Tm.DataProofs.
+From GV Require Export Tm.Model Tm.Spec Tm.Data Tm.Run.
+From GV Require Import Tm.AL Tm.SpecProofs Tm.Refine Tm.Proofs Tm.DataProofs Tm.RunProofs.
 Import ListNotations.
 Open Scope Z_scope.
 
@@ -88,11 +88,15 @@ Theorem oracle_c04_sound : forall ops,
   nonoverlap_ok [] (combine ops (outs ops)) = true /\
   (all_serializable (hist_of ops) ->
    deps_forwardb (hist_of ops) = true /\ acyclicb (hist_of ops) = true /\ view_okb (hist_of ops) = true).
-Proof.
-  intro ops. split; [apply sf_justified_l|]. split; [apply stale_refused_l|]. split; [apply nonoverlap_ok_l|].
-  intro AS. split; [apply deps_forwardb_l; assumption|]. split; [apply acyclicb_l; assumption|apply view_okb_l; assumption].
-Qed.
+Proof. exact oracle_c04_sound_l. Qed.
 Print Assumptions oracle_c04_sound.
+
+(** session level (finding C04-K2): reads and writes of a session are never registered, so the
+    write skew through two Serializable sessions commits twice *)
+Theorem session_write_skew_refuted :
+  exists sops ks, chk_session sops ks = true /\ oracle_sess_c04 sops ks = false /\ k_sess_c04 sops ks = true.
+Proof. exact session_write_skew_refuted_l. Qed.
+Print Assumptions session_write_skew_refuted.
 
 (** why the theorems are restricted to Serializable transactions, as the property is: with one
     SnapshotIsolation transaction in the history the classic write skew commits and the
@@ -122,26 +126,27 @@ Proof. vm_compute. split; reflexivity. Qed.
     from an earlier committer: the premises of ser_view / ser_deps_forward / ser_final hold *)
 Definition ex_ser : list op :=
   [Begin Serializable; Write 2 (ENode 0); Commit 2;
-   Begin Serializable; Begin Serializable; Read 3 (ENode 0); Write 3 (ENode 1); Read 4 (ENode 2);
+   Begin Serializable; Begin Serializable; Read 3 (ENode 0); Read 3 (ENode 2); Write 3 (ENode 1); Read 4 (ENode 2);
    Commit 3; Gc; Write 4 (ENode 2); Read 4 (ENode 0); Commit 4].
 Example nv_ser :
   all_serializableb (hist_of ex_ser) = true /\ ncommitted (hist_of ex_ser) = 3 /\
   deps (hist_of ex_ser) = [(3, 4); (2, 4); (2, 3)] /\
-  (exists r, lookup 3 (hist_of ex_ser) = Some r /\ h_reads r = [(ENode 0, Ver 1)] /\ h_end r = HCommitted 2).
+  (exists r, lookup 3 (hist_of ex_ser) = Some r /\ h_reads r = [(ENode 2, Ver 0); (ENode 0, Ver 1)] /\ h_end r = HCommitted 2).
 Proof. vm_compute. repeat split; try reflexivity. eexists. repeat split; reflexivity. Qed.
-Lemma nv_ser_all : all_serializable (hist_of ex_ser).
-Proof.
-  intros t r. vm_compute.
-  destruct (4 =? t)%Z; [intro H; inversion H; reflexivity|].
-  destruct (3 =? t)%Z; [intro H; inversion H; reflexivity|].
-  destruct (2 =? t)%Z; [intro H; inversion H; reflexivity|discriminate].
-Qed.
 (** a value-level program: every transaction writes 1 + the sum of what it read *)
 Definition ex_prog (t : Z) (e : entity) (view : entity -> Z) : Z :=
   match lookup t (hist_of ex_ser) with
   | Some r => 1 + fold_right (fun x acc => view x + acc) 0 (h_rs r)
   | None => 0
   end.
+Example nv_ser_all : all_serializable (hist_of ex_ser).
+Proof. apply all_serializableb_sound. vm_compute. reflexivity. Qed.
+Example nv_ser_rdw : reads_determine_writes Z ex_prog (hist_of ex_ser).
+Proof.
+  intros t r L e v1 v2 H. unfold ex_prog. rewrite L. f_equal.
+  induction (h_rs r) as [|x l IH]; [reflexivity|]. cbn [fold_right].
+  rewrite (H x) by (left; reflexivity). rewrite IH; [reflexivity|]. intros y Hy. apply H. right. assumption.
+Qed.
 Example nv_ser_final_values :
   map (mv_db Z (fun _ => 0) ex_prog (hist_of ex_ser) 3) [ENode 0; ENode 1; ENode 2] = [1; 2; 2] /\
   map (ser_db Z (fun _ => 0) ex_prog (hist_of ex_ser) 3) [ENode 0; ENode 1; ENode 2] = [1; 2; 2].
